@@ -56,6 +56,21 @@ def _constructed(ctx, ci):
     raise Undecided(f"cannot construct {ci.name}")
 
 
+def _constructed_all(ctx, ci, fields=()):
+    """The object on every returning path of the constructor chain (a guard applied on some paths only is no guard)."""
+    kw = full_kwargs(ctx.p, ci)
+    for k in fields:
+        if k in kw:
+            # the constrained inputs are arbitrary: absent (None), empty or any text - their truthiness is open
+            kw[k] = Obj(None, {"__truth_unknown__": Const(True)}, label=f"<{k}>")
+    res = abstract_construct(ctx.p, ci, kw, inline_prefixes=INLINE)
+    ctx.paths_enumerated += len(res)
+    out = [o for pa, o in res if pa.outcome == "return"]
+    if not out:
+        raise Undecided(f"cannot construct {ci.name}")
+    return out
+
+
 def _guard_of(v):
     """(function qualname, first arg, second arg) of a checks.* call term, else None."""
     if isinstance(v, Term) and v.op == "call" and isinstance(v.args[0], Fn) and v.args[0].fi.module.name == "indi.message.checks":
@@ -86,20 +101,23 @@ def rule_guard(ctx):
         if not wanted:
             continue
         try:
-            o = _constructed(ctx, ci)
+            objs = _constructed_all(ctx, ci, tuple(wanted))
         except Undecided as u:
             ctx.undecided("C13.GUARD", ci.short, str(u), ci=ci)
             continue
         for field, vocab in sorted(wanted.items()):
             n += 1
             inst = f"{ci.short}.{field}"
-            v = o.attrs.get(field)
+            # the path that stores the field least guarded decides (unchecked beats missing beats guarded)
+            vs = [o.attrs.get(field) for o in objs]
+            unguarded = [x for x in vs if x is not None and _guard_of(x) is None]
+            v = unguarded[0] if unguarded else (None if any(x is None for x in vs) else vs[0])
             if v is None:
                 ctx.violated("C13.GUARD", inst, f"constrained field '{field}' is not stored by the constructor", ci=ci, text=f"{ci.name}.{field}:missing")
                 continue
             g = _guard_of(v)
             if g is None:
-                ctx.violated("C13.GUARD", inst, f"'{field}' is stored unchecked ({show(v)[:60]}): any text is accepted", ci=ci, text=f"{ci.name}.{field}:unchecked", witness=f'<{tag} {field}="bogus">' if field != "value" else f"<{tag}>bogus</{tag}>")
+                ctx.violated("C13.GUARD", inst, f"'{field}' is stored unchecked ({show(v)[:60]})" + (f" on {len(unguarded)} of {len(vs)} constructor paths: the inputs that take such a path (e.g. an absent or empty value) are accepted without the vocabulary test" if len(unguarded) < len(vs) else ": any text is accepted"), ci=ci, text=f"{ci.name}.{field}:unchecked", witness=f'<{tag} {field}="bogus">' if field != "value" else f"<{tag}>bogus</{tag}>")
                 continue
             fn, a0, a1 = g
             if not is_sym(a0, field):
